@@ -39,7 +39,8 @@ def cfg_text(c, emit, sim=False):
              "  AllowDisabled = %s" % b(c.get("disabled")), "  AllowSeeded = %s" % b(c.get("seeded")),
              "  AllowOutOfGraph = %s" % b(c.get("oog")), "  AllowIgnore = %s" % b(c.get("ignore")),
              "  SSSet = {%s}" % ", ".join(b(x) for x in c.get("ss", [False])),
-             "  ModeSet = %s" % s(c.get("modes", ["single"])), "  Workers = %d" % c.get("workers", 1)]
+             "  ModeSet = %s" % s(c.get("modes", ["single"])), "  Workers = %d" % c.get("workers", 1),
+             "  ArchSet = {%s}" % ", ".join(b(x) for x in c.get("arch", [False]))]
     lines += ["INVARIANT %s" % i for i in ALL_INV]
     if emit:
         lines.append("CONSTRAINT Emit")
@@ -93,23 +94,26 @@ CONFIGS = {
     "miss3q": dict(N=3, kinds=["plain", "rule"], outs=["val", "skip"], items=2, grp=2),
     # graphs that are not dependency-closed (caller-supplied sub-dictionaries), None seeds
     "oog3": dict(N=3, kinds=["plain"], outs=["val", "none"], items=1, grp=1, oog=True, seeded=True),
+    # analysis of a collected archive: the broker holds a SerializedArchiveContext and components loaded
+    # from the archive (seeded); dr.run drops their direct dependencies from the graph
+    "arch3": dict(N=3, kinds=["plain"], outs=["val"], items=2, grp=1, seeded=True, arch=[True]),
     "faults3c": dict(N=3, kinds=["datasource", "combiner", "point"], outs=["val", "content", "timeout", "crash"],
                      items=1, grp=2, ss=[False, True]),
 }
 
 PLAN = {
-    "C01": dict(quick=["shapes3", "seeds3"], thorough=["shapes3", "seeds3", "lin4", "ignore3", "oog3"],
+    "C01": dict(quick=["shapes3", "seeds3", "arch3"], thorough=["shapes3", "seeds3", "lin4", "ignore3", "oog3", "arch3"],
                 drivers=["forced", "run", "closure", "incr"]),
     "C02": dict(quick=["kinds3q", "miss3q", "dis3q"], thorough=["kinds3", "rules3", "miss3q", "dis3q", "shapes3", "ignore3"],
                 drivers=["forced", "run"]),
     "C03": dict(quick=["faults3q", "faults3c", "elems3"], thorough=["faults3", "faults3b", "faults3c", "faults4", "rules3", "elems3full"],
                 drivers=["forced", "run"]),
-    "C04": dict(quick=["lin4", "oog3"], thorough=["lin4", "oog3", "seeds3", "faults3q", "shapes3", "miss3q"],
+    "C04": dict(quick=["lin4", "oog3", "arch3"], thorough=["lin4", "oog3", "arch3", "seeds3", "faults3q", "shapes3", "miss3q"],
                 drivers=["forced", "run", "incr", "pool2", "pool3s"],
                 model_only=dict(quick=["pool4a"], thorough=["pool4a", "pool4b", "pool3"])),
 }
 
-SIM = dict(N=5, kinds=["plain", "datasource", "parser", "combiner", "rule", "condition", "point"],
+SIM = dict(arch=[False, True], N=5, kinds=["plain", "datasource", "parser", "combiner", "rule", "condition", "point"],
            outs=["val", "none", "list", "skip", "content", "cmd", "timeout", "crash"],
            eouts=["val", "none", "skip", "content", "cmd", "crash"], items=3, grp=2, seeded=True,
            disabled=True, oog=True, ignore=True, ss=[False, True])
@@ -123,7 +127,7 @@ ASSUMPTIONS = [
 
 
 def case_key(c):
-    return lib.hashlib.sha1(lib.json.dumps([c["prog"], c["ss"]], sort_keys=True).encode()).hexdigest()
+    return lib.hashlib.sha1(lib.json.dumps([c["prog"], c["ss"], c.get("arch", False)], sort_keys=True).encode()).hexdigest()
 
 
 def features(case):
@@ -206,7 +210,7 @@ def run(prop, tier):
         # "same" trace per program: every run must leave exactly the same values, missing-dependency
         # reports (order included) and recorded failures as the first one
         p2 = [dict(cases=[c for c in ch if not c["dup"]], drivers=["run"], npad=6, listlen=2, obsfail_every=0,
-                   idtag="@B") for ch in lib.chunks(cases, lib.NCPU)]
+                   idtag="@B", flip=1) for ch in lib.chunks(cases, lib.NCPU)]
         for o in lib.run_driver_parallel("drive_dr.py", p2, hashseeds=list(range(101, 140)), timeout=1500):
             traces.extend(o["traces"])
         groups = {}
@@ -219,7 +223,7 @@ def run(prop, tier):
                 continue
             first = ts[0]
             traces.append(dict(id=first["id"].split("/")[0] + "/same", prog=first["prog"], ss=first["ss"], mode="single",
-                               closure=False, strict=True,
+                               closure=False, strict=True, arch=False,
                                workers=1, final=None,
                                events=[dict(ev="same", ra=first["id"], rb=t["id"], a=first["final"], b=t["final"])
                                        for t in ts[1:]]))
